@@ -46,7 +46,7 @@ def drive_and_validate(c, mode, ntr, steps):
     trace = c.path("trace", "itermap.ndjson")
     c.run_vh(["drive", "itermap", "-seed", c.seed, "-n", ntr, "-out", trace, "-x", "steps=%d" % steps])
     cfg = c.write_cfg("itermap", "OrderedMapTrace_" + mode,
-                      constants={"Iters": list(range(1, 9)), "CheckReplies": mode == "c10", "CheckRetention": mode == "c11"},
+                      constants={"Iters": list(range(1, 101)), "CheckReplies": mode == "c10", "CheckRetention": mode == "c11"},
                       postcondition="Accepted")
     ok, at, _ = c.validate_trace("itermap", "OrderedMapTrace", cfg, trace, timeout=1800)
     lines = open(trace).read().splitlines()
@@ -69,7 +69,7 @@ def drive_and_validate(c, mode, ntr, steps):
                 return lines     # a panic is C10's business
         c.report_failure(sig, {"rejected_at_line": at, "history": ctx,
                                "trace": {"comp": "itermap", "module": "OrderedMapTrace",
-                                         "constants": {"Iters": list(range(1, 9)), "CheckReplies": mode == "c10", "CheckRetention": mode == "c11"}}})
+                                         "constants": {"Iters": list(range(1, 101)), "CheckReplies": mode == "c10", "CheckRetention": mode == "c11"}}})
     return lines
 
 
@@ -95,7 +95,7 @@ def selftest(c, mode, lines):
     p = c.path("trace", "itermap-corrupt.ndjson")
     open(p, "w").write("\n".join(l2) + "\n")
     cfg = c.write_cfg("itermap", "OrderedMapTrace_" + mode,
-                      constants={"Iters": list(range(1, 9)), "CheckReplies": mode == "c10", "CheckRetention": mode == "c11"},
+                      constants={"Iters": list(range(1, 101)), "CheckReplies": mode == "c10", "CheckRetention": mode == "c11"},
                       postcondition="Accepted")
     ok, at, _ = c.validate_trace("itermap", "OrderedMapTrace", cfg, p, label="selftest")
     c.selftest = {"ran": True, "corrupted_line": i + 1, "rejected_at_line": at, "detected": (not ok) and at == i + 1}
